@@ -204,6 +204,30 @@ func TestVerifC14(t *testing.T) {
 		}
 	}
 
+	// saveLimited is one config.write under a file size limit: it must fail and
+	// leave the file as it was; the same state is then saved with room again.
+	saveLimited := func(c *verifc14.Case, label string, limit func(size int) uint64) {
+		want := c14Encode(t)
+		lim := limit(len(want))
+		c.Info["limit"], c.Info["size"] = lim, len(want)
+		if err := c.SaveLimited(label, lim, func() error { return config.write(nil) }); err == nil {
+			c.Fail("config.write of %d bytes under a file size limit of %d reported success", len(want), lim)
+		}
+	}
+	// upgradeLimited: the start-up rewrite after a schema upgrade under a file
+	// size limit.  The old-schema document must survive byte for byte.
+	upgradeLimited := func(c *verifc14.Case, label string, old []byte, lim uint64) {
+		config.fileData = nil
+		c.Info["limit"], c.Info["old_len"] = lim, len(old)
+		err := c.SaveLimited(label, lim, func() error { return parseConfig() })
+		if err == nil {
+			c.Fail("parseConfig whose upgrade write ran under a file size limit of %d reported success", lim)
+		} else {
+			c.Info["parseConfig_err"] = err.Error()
+		}
+		config.fileData = nil
+	}
+
 	// ---- prelude: one constructed representative per class
 	s.TmpInDstDir()
 	_, conf := fresh()
@@ -220,16 +244,26 @@ func TestVerifC14(t *testing.T) {
 		save(c, "write")
 	})
 	s.TmpInDstDir()
-	// two goroutines saving at once: configuration.write serialises them with
-	// the configuration lock; whatever the interleaving, only complete versions
-	// may ever be published
+	// several goroutines saving at once (HTTP handlers, the DHCP and TLS
+	// modules and the filter updater all end in config.write):
+	// configuration.write serialises them with the configuration lock; whatever
+	// the interleaving, only complete versions may ever be published.  Every
+	// writer first installs user rules of its own size, so the intended
+	// versions differ in length.
 	s.Case("concurrent-writes", conf, nil, []string{"home", "config-write", "dst-present", "tmp-in-dstdir"}, func(c *verifc14.Case) {
-		want := c14Encode(t)
-		for k := 0; k < 3; k++ {
-			c.SaveConcurrent(fmt.Sprintf("pair-%d", k), []verifc14.Job{
-				{Want: want, F: func() error { return config.write(nil) }},
-				{Want: want, F: func() error { return config.write(nil) }},
-			})
+		for k := 0; k < s.Scale(3, 10); k++ {
+			var jobs []verifc14.Job
+			for w := 0; w < 4; w++ {
+				rules := c14Rules(r.Fork(uint64(100+10*k+w)), 200+3000*w*(k+1), 40+20*w, fmt.Sprintf("c%d-%d", k, w))
+				config.UserRules = rules
+				jobs = append(jobs, verifc14.Job{Want: c14Encode(t), F: func() error {
+					config.Lock()
+					config.UserRules = rules
+					config.Unlock()
+					return config.write(nil)
+				}})
+			}
+			c.SaveConcurrent(fmt.Sprintf("quad-%d", k), jobs)
 		}
 	})
 	s.Case("successive", conf, nil, []string{"home", "config-write", "dst-present", "tmp-in-dstdir", "multi-save"}, func(c *verifc14.Case) {
@@ -290,7 +324,7 @@ func TestVerifC14(t *testing.T) {
 		// schema 0 -> 1 unlinks dnsfilter.txt, 1 -> 2 unlinks Corefile (both in the work dir)
 		put(filepath.Join(work, "dnsfilter.txt"), []byte("||old.example^\n"))
 		put(filepath.Join(work, "Corefile"), []byte(". {\n}\n"))
-		cls := []string{"home", "config-upgrade-write", "dst-present"}
+		cls := []string{"home", "config-upgrade-write", "dst-present", "upgrade-on-start"}
 		if nup%2 == 0 {
 			s.TmpShared()
 			cls = append(cls, "tmp-in-tmpdir")
@@ -324,6 +358,66 @@ func TestVerifC14(t *testing.T) {
 				config.UserRules = append(config.UserRules, "||after-upgrade.example^")
 				save(c, "write-changed")
 			})
+		}
+	}
+
+	// ---- injected write failures (RLIMIT_FSIZE: the write is cut short, then
+	// EFBIG, as with a full disk or a quota): the configuration file must be
+	// byte-identical afterwards, for the ordinary save and for the upgrade write
+	for i, sc := range []struct {
+		name    string
+		present bool
+		rules   int
+		limit   func(size int) uint64
+		shared  bool
+	}{
+		{"fail-first-write-absent", false, 0, func(int) uint64 { return 0 }, false},
+		{"fail-first-write-present", true, 0, func(int) uint64 { return 0 }, false},
+		{"fail-mid-write-present", true, 40000, func(sz int) uint64 { return uint64(sz / 2) }, false},
+		{"fail-last-byte-present", true, 2000, func(sz int) uint64 { return uint64(sz - 1) }, true},
+		{"fail-mid-write-absent", false, 40000, func(sz int) uint64 { return uint64(sz / 3) }, true},
+	} {
+		_, conf := fresh()
+		cls := []string{"home", "config-write", "failed-save"}
+		if sc.shared {
+			s.TmpShared()
+			cls = append(cls, "tmp-in-tmpdir")
+		} else {
+			s.TmpInDstDir()
+			cls = append(cls, "tmp-in-dstdir")
+		}
+		if sc.present {
+			if err := config.write(nil); err != nil {
+				t.Fatal(err)
+			}
+			cls = append(cls, "dst-present")
+		} else {
+			cls = append(cls, "dst-absent")
+		}
+		config.UserRules = c14Rules(r.Fork(uint64(200+i)), sc.rules, 80, fmt.Sprintf("f%d", i))
+		s.Case(sc.name, conf, nil, cls, func(c *verifc14.Case) {
+			saveLimited(c, "write-limited", sc.limit)
+			save(c, "write-after-failure")
+		})
+	}
+	for i, name := range upNames {
+		old := docs[name]
+		s.TmpInDstDir()
+		work, conf := fresh()
+		want, _ := migrated(old, work)
+		put(conf, old)
+		put(filepath.Join(work, "dnsfilter.txt"), []byte("||old.example^\n"))
+		lim := uint64(0)
+		if i%2 == 1 {
+			lim = uint64(len(old) / 2)
+		}
+		s.Case("fail-upgrade-"+name, conf, nil, []string{"home", "config-upgrade-write", "failed-save", "dst-present", "tmp-in-dstdir", "upgrade-on-start"}, func(c *verifc14.Case) {
+			upgradeLimited(c, "parseConfig-limited", old, lim)
+			// the next start, with room again, upgrades the same document
+			upgrade(c, work, conf, "parseConfig-retry", old, want)
+		})
+		if i >= s.Scale(3, 1000) {
+			break
 		}
 	}
 
@@ -365,6 +459,12 @@ func TestVerifC14(t *testing.T) {
 					sz, rl = r.Intn(s.Scale(300000, 3000000)), 60+r.Intn(800)
 				}
 				config.UserRules = c14Rules(r.Fork(uint64(j)), sz, rl, fmt.Sprint(j))
+				if r.Chance(1, 5) {
+					frac := uint64(r.Intn(4)) // 0: the first write fails
+					saveLimited(c, fmt.Sprintf("write-%d-limited", j), func(size int) uint64 { return uint64(size) * frac / 4 })
+					c.Class("failed-save")
+					continue
+				}
 				save(c, fmt.Sprintf("write-%d(%d rules)", j, len(config.UserRules)))
 			}
 		})
